@@ -583,23 +583,30 @@ def c16_colocate(R):
     ):
         mm = tree.mod(path)
         fn = tree.func(path, q)
-        first = fn.body[0] if not (isinstance(fn.body[0], ast.Expr) and isinstance(fn.body[0].value, ast.Constant)) else fn.body[1]
-        ok = (
-            isinstance(first, ast.If)
-            and isinstance(first.test, ast.Call)
-            and isinstance(first.test.func, ast.Attribute)
-            and first.test.func.attr == "satisfiable"
-            and first.body
-            and isinstance(first.body[-1], ast.Return)
-            and isinstance(first.body[-1].value, (ast.Tuple, ast.List))
-            and not first.body[-1].value.elts
+        # every place that asks somebody for a core is reached only after `satisfiable(..)` came back false, and the
+        # statement that leaves on a true answer returns the empty core
+        asks = [c for c in ast.walk(fn) if isinstance(c, ast.Call) and isinstance(c.func, ast.Attribute) and c.func.attr == "unsat_core"]
+        dominated = bool(asks) and all(
+            any(not pol and isinstance(t, ast.Call) and isinstance(t.func, ast.Attribute) and t.func.attr == "satisfiable" for t, pol in guards.guards_of(c))
+            for c in asks
         )
+        empties = [
+            st
+            for st in ast.walk(fn)
+            if isinstance(st, ast.If)
+            and any(isinstance(x, ast.Call) and isinstance(x.func, ast.Attribute) and x.func.attr == "satisfiable" for x in ast.walk(st.test))
+            and st.body
+            and isinstance(st.body[-1], ast.Return)
+            and isinstance(st.body[-1].value, (ast.Tuple, ast.List))
+            and not st.body[-1].value.elts
+        ]
+        ok = dominated and bool(empties)
         R.check(
             ok,
             mm,
             fn,
             f"{q} returns an empty core when satisfiable, before asking the backend",
-            f"{q} does not start with `if self.satisfiable(...): return ()`",
+            f"{q} can ask for a core without `satisfiable(...)` having answered false first (or no longer returns () when satisfiable)",
             construct=f"{q}: satisfiable -> ()",
         )
 
